@@ -129,7 +129,8 @@ theorem findIntercepts_cases (solve : List (List ℝ) → List ℝ → Option (L
     (solve A b = none ∧ findIntercepts solve extreme best worst frontWorst = worst) ∨
     (findIntercepts solve extreme best worst frontWorst = frontWorst) ∨
     (∃ x, solve A b = some x ∧ x.any isZero = false ∧ acceptIntercepts A x best worst = true ∧
-      findIntercepts solve extreme best worst frontWorst = x.map (fun v => RealLike.ofNat 1 / v)) := by
+      findIntercepts solve extreme best worst frontWorst =
+        List.zipWith (· + ·) (x.map (fun v => RealLike.ofNat 1 / v)) best) := by
   intro A b
   unfold findIntercepts
   simp only []
@@ -178,7 +179,7 @@ theorem acceptIntercepts_spec (A : List (List ℝ)) (x best worst : List ℝ)
     have := h3 _ hmem
     simp [hlt] at this
 
-/-! ### the denominators `intercepts - best + eps` of the normalisation (line 624) -/
+/-! ### the denominators `intercepts - best + eps` of the normalisation (line 627) -/
 
 theorem eps_pos : (0 : ℝ) < (eps : ℝ) := by
   unfold eps
@@ -198,8 +199,8 @@ theorem denominator_pos_of_ge (intercepts best : List ℝ)
   simp only [Function.uncurry]
   constructor <;> linarith
 
-/-- hyperplane answer (`1/x`, accepted): the denominators are positive when the ideal point is
-componentwise ≤ 0 (in particular for an ideal point at the origin). -/
+/-- OLD formula (before fix F21, accepted hyperplane answer returned as `1/x` relative to the ideal
+point): the denominators are positive only when the ideal point is componentwise ≤ 0. -/
 theorem denominator_pos_of_accept (A : List (List ℝ)) (x best worst : List ℝ)
     (h : acceptIntercepts A x best worst = true) (hb : ∀ b ∈ best, b ≤ 0) :
     ∀ d ∈ List.zipWith (fun i b => i - b + (eps : ℝ)) (x.map (fun v => (1 : ℝ) / v)) best, 0 < d := by
@@ -278,9 +279,9 @@ theorem accept_example : acceptIntercepts [[(3 : ℝ), 0], [0, 3]] [1 / 3, 1 / 3
     Bool.and_eq_true, decide_eq_true_eq, Bool.not_eq_true', Bool.or_eq_false_iff, decide_eq_false_iff_not, id]
   norm_num
 
-/-- The unconditional statement "the normalisation never divides by a non-positive number" is
-FALSE for the code as written: `find_intercepts` returns the hyperplane intercepts *relative to
-the ideal point* (it tests `intercepts + best_point > current_worst`), but line 624 subtracts the
+/-- OLD formula (before fix F21): the unconditional statement "the normalisation never divides by a
+non-positive number" was FALSE: `find_intercepts` returned the hyperplane intercepts *relative to
+the ideal point* (it tests `intercepts + best_point > current_worst`), but line 627 subtracts the
 ideal point from them again.  Ideal point (5,5), extreme points (8,5), (5,8), worst point (8,8):
 the solve answer (1/3, 1/3) passes every guard, the intercepts are (3,3), and both denominators
 are `3 - 5 + eps < 0` (every normalised coordinate changes sign). -/
@@ -293,5 +294,58 @@ theorem denominator_can_be_negative :
   intro d hd
   simp only [List.map, List.zipWith, List.mem_cons, List.not_mem_nil, or_false] at hd
   rcases hd with h | h <;> (rw [h]; norm_num; linarith)
+
+/-! ### the fixed code (F21): accepted intercepts are returned as `1/x + ideal` -/
+
+theorem denominator_pos_fixed_aux : ∀ (inv best : List ℝ), (∀ v ∈ inv, 0 < v) →
+    ∀ d ∈ List.zipWith (fun i b => i - b + (eps : ℝ)) (List.zipWith (· + ·) inv best) best,
+      (eps : ℝ) < d := by
+  intro inv
+  induction inv with
+  | nil => intro best _ d hd; simp at hd
+  | cons v vs ih =>
+    intro best hpos d hd
+    cases best with
+    | nil => simp at hd
+    | cons b bs =>
+      simp only [List.zipWith_cons_cons, List.mem_cons] at hd
+      rcases hd with h | h
+      · have := hpos v (by simp); rw [h]; linarith
+      · exact ih bs (fun v' hv' => hpos v' (by simp [hv'])) d h
+
+/-- every denominator of the normalisation is positive, whatever `solve` answers: the model's own
+ideal / worst / extreme points and intercepts (plain call and memory call). -/
+theorem normalisation_denominator_pos (solve : List (List ℝ) → List ℝ → Option (List ℝ))
+    (r0 : List ℝ) (rs : List (List ℝ)) (hrect : ∀ r ∈ rs, r.length = r0.length)
+    (me : Option (List (List ℝ))) :
+    (∀ d ∈ List.zipWith (fun i b => i - b + (eps : ℝ))
+        (normalisation solve (r0 :: rs) none none me).2.2.2
+        (normalisation solve (r0 :: rs) none none me).1, 0 < d) ∧
+    (∀ mb mw : List ℝ, mb.length = r0.length → mw.length = r0.length →
+      ∀ d ∈ List.zipWith (fun i b => i - b + (eps : ℝ))
+        (normalisation solve (r0 :: rs) (some mb) (some mw) me).2.2.2
+        (normalisation solve (r0 :: rs) (some mb) (some mw) me).1, 0 < d) := by
+  have key : ∀ (best worst fw : List ℝ) (extreme : List (List ℝ)),
+      (∀ p ∈ List.zip worst best, p.2 ≤ p.1) → (∀ p ∈ List.zip fw best, p.2 ≤ p.1) →
+      ∀ d ∈ List.zipWith (fun i b => i - b + (eps : ℝ))
+        (findIntercepts solve extreme best worst fw) best, 0 < d := by
+    intro best worst fw extreme hw hf d hd
+    rcases findIntercepts_cases solve extreme best worst fw with ⟨_, h⟩ | h | ⟨x, _, _, ha, h⟩
+    · rw [h] at hd; exact (denominator_pos_of_ge worst best hw d hd).2
+    · rw [h] at hd; exact (denominator_pos_of_ge fw best hf d hd).2
+    · rw [h] at hd
+      have hpos : ∀ v ∈ x.map (fun v => (RealLike.ofNat 1 : ℝ) / v), 0 < v := by
+        intro v hv
+        obtain ⟨u, hu, rfl⟩ := List.mem_map.1 hv
+        have := (acceptIntercepts_spec _ x best worst ha).2.1 u hu
+        have e : (RealLike.ofNat 1 / u : ℝ) = 1 / u := by simp only [RealLike.real_ofNat, Nat.cast_one]
+        rw [e]; exact lt_trans (by norm_num) this
+      exact lt_trans eps_pos (denominator_pos_fixed_aux _ best hpos d hd)
+  constructor
+  · intro d hd
+    exact key _ _ _ _ (fallback_ge_ideal_nomem r0 rs hrect) (fallback_ge_ideal_nomem r0 rs hrect) d hd
+  · intro mb mw hb hw d hd
+    obtain ⟨h1, h2⟩ := fallback_ge_ideal_mem r0 rs mb mw hrect hb hw
+    exact key _ _ _ _ h2 h1 d hd
 
 end C07L
